@@ -34,6 +34,7 @@ def run(ctx):
     ctx.rule("R2.orderings", "ref_count decrement release-ish; free preceded by acquire-ish read; activation swaps AcqRel", floor=3)
     ctx.rule("R3.activation-protocol", "check_activated before poll_erased; wake: swap(1), parent woken only on 0->1, cloned under the lock, woken outside it; parent installed through an unconditional lock", floor=5)
     ctx.rule("R4.deque-order", "slot removals only via pop_front_if/pop_back_if(is_ready) or drain in Drop; completion by in-place replace; no reordering calls", floor=5)
+    ctx.rule("R6.release-before-user-drop", "once a Pending slot has been moved out of the deque, its metadata reference is released before any user code (the future's Drop) can run and unwind past the release", floor=2)
     ctx.rule("R5.metadata-balance", "each destruction of a Pending slot reaches release_ref(meta) exactly once", floor=3)
 
     wm = {b.name: b for b in prog.bodies if b.key.startswith("future_deque::waker_meta::") and not b.is_closure}
@@ -269,6 +270,7 @@ def run(ctx):
         ctx.ob("R4.deque-order", "completion-in-place", ok, core_poll.loc(), "a completed future's slot is overwritten in place with Slot::Ready (position unchanged)")
 
     # ---------------- R5
+    uc6 = UserCode(prog)
     rel_sites = who_calls(prog, "waker_meta::release_ref")
     allowed = {"future_deque::future_deque_core::FutureDequeCore::poll", "<future_deque::future_deque_core::FutureDequeCore<T> as std::ops::Drop>::drop",
                "future_deque::waker_meta::drop_raw_waker"}
@@ -292,4 +294,24 @@ def run(ctx):
             sl = Slice(bd, through_calls=False).run(t["args"][0])
             ok = ok and any(f.endswith("Slot::meta") for f in sl["fields"])
         ctx.ob("R5.metadata-balance", short(k), ok, bd.loc(), det)
+        if k != "future_deque::waker_meta::drop_raw_waker":
+            bb, t = sites[0][1], sites[0][2]
+            dom6 = bd.dominators(unwind=False)
+            # the local the metadata pointer is read from (the slot value that was moved out of the deque)
+            sl = Slice(bd, through_calls=False).run(t["args"][0])
+            owners = [l for l in sl["locals"] if "Slot<" in bd.local_ty(l)["s"] and bd.local_ty(l)["k"] == "adt"]
+            own_defs = [d[0] for l in owners for d in bd.defs().get(l, [])]
+            bad = []
+            for blk in bd.blocks:
+                if blk.cleanup or blk.idx == bb:
+                    continue
+                d = uc6.direct(bd, blk.idx)
+                if not d:
+                    continue
+                after_move = any(x in dom6[blk.idx] for x in own_defs)
+                before_rel = blk.idx in dom6[bb]
+                if after_move and before_rel:
+                    bad.append(f"{d[0]} at {bd.loc(blk.term.get('span'))}")
+            ctx.ob("R6.release-before-user-drop", short(k), bool(owners) and not bad, bd.loc(t["span"]),
+                   f"user-code points between moving the slot out and release_ref: {bad or 'none'}")
     ctx.ob("R5.metadata-balance", "all-destruction-sites-covered", set(by) == allowed, "", f"functions releasing metadata: {sorted(short(k) for k in by)}")
